@@ -406,6 +406,50 @@ func c11Copies(c *core.Ctx, k *core.Case) {
 	c.Count("copy_histories", 1)
 }
 
+// oracle "concurrent-private": I=[seed, workers, steps] — every worker drives its OWN Count
+// against its own 24-bit model, all at the same time. The counters share nothing, so each must
+// behave exactly as it does alone; working storage that the operations share behind the scenes
+// (a package-level scratch buffer) mixes one counter's octets into another's.
+func c11ConcurrentPrivate(c *core.Ctx, k *core.Case) {
+	g, steps := int(k.I[1]), int(k.I[2])
+	cnt := make([]security.Count, g)
+	model := make([]uint32, g)
+	rs := make([]*prng.Rand, g)
+	for w := range rs {
+		rs[w] = prng.New(uint64(k.I[0]) + uint64(w)*0x9e3779b97f4a7c15)
+	}
+	msgs := concurrentProbe(g, steps, func(w, i int) string {
+		r := rs[w]
+		x := r.Uint64()
+		var what string
+		switch x & 7 {
+		case 0, 1, 2:
+			model[w] = c11Mutate(&cnt[w], 3, 0, 0, model[w])
+			what = "AddOne"
+		case 3:
+			model[w] = c11Mutate(&cnt[w], 1, 0, byte(x>>8), model[w])
+			what = "SetSQN"
+		case 4:
+			model[w] = c11Mutate(&cnt[w], 2, uint16(x>>8), 0, model[w])
+			what = "SetOverflow"
+		case 5:
+			model[w] = c11Mutate(&cnt[w], 0, uint16(x>>8), byte(x>>24), model[w])
+			what = "Set"
+		default:
+			what = "read"
+		}
+		if got := cnt[w].Get(); got != model[w] || uint32(cnt[w].Overflow())<<8|uint32(cnt[w].SQN()) != model[w] {
+			return fmt.Sprintf("worker %d step %d (%s): its private counter reads Get()=%#x Overflow()=%#x SQN()=%#x, its model is %#06x", w, i, what, got, cnt[w].Overflow(), cnt[w].SQN(), model[w])
+		}
+		return ""
+	})
+	c.Eval(int64(g * steps))
+	c.Count("concurrent_private_steps", int64(g*steps))
+	if len(msgs) > 0 {
+		c.Fail(k, "concurrent-private-counter-mismatch", fmt.Sprintf("%d workers, each with a counter of its own; %d of them saw a wrong value: %s", g, len(msgs), msgs[0]))
+	}
+}
+
 var c11RunLens = []int{1, 2, 3, 127, 128, 129, 255, 256, 257, 511, 512, 32767, 32768, 32769, 65535, 65536, 65537, 131071, 131072, 131073}
 
 // oracle "blind-runs": I=[overflow0, sqn0, seed, segments, mix, long] — segments of
@@ -466,7 +510,7 @@ func init() {
 			"states are reached through the public Set(overflow, sqn); the unexported field is never written directly",
 			"bits 24..31 of the internal word are unobservable and not judged",
 		},
-		Oracles: map[string]func(*core.Ctx, *core.Case){"history": c11History, "sweep": c11Sweep, "blind-seq": c11BlindSeq, "blind-enum": c11BlindEnum, "blind-runs": c11BlindRuns, "copies": c11Copies},
+		Oracles: map[string]func(*core.Ctx, *core.Case){"history": c11History, "sweep": c11Sweep, "blind-seq": c11BlindSeq, "blind-enum": c11BlindEnum, "blind-runs": c11BlindRuns, "copies": c11Copies, "concurrent-private": c11ConcurrentPrivate, "cold-concurrent": coldConcurrent},
 		Exhaustive: func(tier string) (bool, string) {
 			return true, "the increment relation and the value/overflow/sqn identity are checked from all 2^24 states; operation sequences are sampled"
 		},
@@ -537,6 +581,14 @@ func init() {
 				c.Do(&core.Case{Oracle: "blind-enum", Target: "security.Count", I: []int64{int64(si), int64(c.Pick(4, 5))}})
 			}})
 		}
+		us = append(us, core.Unit{Name: "concurrent-private", Weight: 30, Run: func(c *core.Ctx) {
+			for i := 0; i < c.Pick(2, 6); i++ {
+				k := &core.Case{Oracle: "concurrent-private", Target: "security.Count", I: []int64{int64(c.R.Uint64() >> 1), 8, int64(c.Pick(2000000, 8000000))}}
+				c.Do(k)
+				c.NonTrivial(k.Hash())
+			}
+		}})
+		us = append(us, coldUnit("security.Count", "count-alloc"))
 		for u := 0; u < 8; u++ {
 			us = append(us, core.Unit{Name: fmt.Sprintf("copies-%02d", u), Weight: 8, Run: func(c *core.Ctx) {
 				for i := 0; i < c.Pick(300, 10000); i++ {
